@@ -14,6 +14,7 @@ pub mod c05;
 pub mod c09;
 pub mod c10;
 pub mod c11;
+pub mod c12;
 pub mod c06;
 pub mod codes;
 pub mod c07;
@@ -31,6 +32,7 @@ pub fn run(prop: &str, ctx: &Ctx) -> Option<Report> {
         "C09" => c09::run(ctx),
         "C10" => c10::run(ctx),
         "C11" => c11::run(ctx),
+        "C12" => c12::run(ctx),
         "C06" => c06::run(ctx),
         "C07" => c07::run(ctx),
         "C08" => c08::run(ctx),
@@ -49,6 +51,7 @@ pub fn replay(prop: &str, case: &str, rep: &mut Report) -> bool {
         "C09" => c09::replay(case, rep),
         "C10" => c10::replay(case, rep),
         "C11" => c11::replay(case, rep),
+        "C12" => c12::replay(case, rep),
         "C06" => c06::replay(case, rep),
         "C07" => c07::replay(case, rep),
         "C08" => c08::replay(case, rep),
